@@ -11,6 +11,7 @@ func init() {
 	register("C15", "R1", 6, "the accept goroutine never waits for a peer: between Accept and the hand-off to the connection's own goroutine, Serve and the stacked listeners' Accept methods call no method of the accepted connection (a PROXY-protocol conn answers RemoteAddr only after the peer sent its header) and perform no handshake or read; nothing peer-dependent runs under the proxy-wide connection lock (C11.R1)", c15r1)
 	register("C15", "R2", 6, "deadline ordering in readRequest: idle deadline set before waiting for the first byte; the header deadline is computed from a clock reading taken after the first byte arrived, set before the head is parsed; afterwards the whole-request deadline (possibly none) replaces it; idle uses IdleTimeout→ReadTimeout, header uses ReadHeaderTimeout→ReadTimeout", c15r2)
 	register("C15", "R3", 2, "handshakes run in the connection's goroutine under their timeout: the listener TLS handshake and the MITM handshake use a context bounded by the configured timeout when it is positive", c15r3)
+	register("C15", "R5", 5, "no client deadline is armed while the origin works: the connection's deadlines are set only by readRequest (read side: idle, header, whole request) and by writeResponse (write side: armed from the clock immediately before the response is written, cleared when it returns); a deadline armed anywhere else keeps running during the upstream exchange and cuts off a client whose origin is merely slow", c15r5)
 	register("C15", "R4", 7, "wiring: martian's IdleTimeout, ReadHeaderTimeout, ReadTimeout, WriteTimeout, TLS and MITM handshake timeouts are assigned from the like-named configuration fields; the PROXY header timeout reaches proxyproto.Listener", c15r4)
 }
 
@@ -314,5 +315,80 @@ func c15r4(r *R) {
 	}
 	if !found {
 		r.bad("Listener.Listen#proxyproto.ReadHeaderTimeout", r.method(".", "Listener", "Listen").Pos(), "PROXY header timeout is not passed to the listener")
+	}
+}
+
+func c15r5(r *R) {
+	type site struct{ fn, method string }
+	allowed := map[site]int{
+		{"(*martian.proxyConn).readRequest", "SetReadDeadline"}:     3,
+		{"(*martian.proxyConn).writeResponse", "SetWriteDeadline"}:   1, // armed
+		{"(*martian.proxyConn).writeResponse$1", "SetWriteDeadline"}: 1, // cleared (deferred)
+	}
+	got := map[site]int{}
+	for _, fn := range r.modFuncs() {
+		n := fname(fn)
+		if !(strings.HasPrefix(n, "(*martian.") || strings.HasPrefix(n, "martian.") || strings.HasPrefix(n, "(martian.")) {
+			continue
+		}
+		eachInstr(fn, func(ins ssa.Instruction) {
+			c, ok := ins.(ssa.CallInstruction)
+			if !ok {
+				return
+			}
+			m := methodName(c.Common())
+			if m != "SetDeadline" && m != "SetReadDeadline" && m != "SetWriteDeadline" {
+				return
+			}
+			s := site{n, m}
+			got[s]++
+			key := n + "#" + m
+			if _, ok := allowed[s]; !ok {
+				r.bad(key, c.Pos(), m+" is called outside the two places that own the client connection's deadlines; a deadline armed here keeps running while the origin is answering (or is never cleared)")
+				return
+			}
+			switch {
+			case n == "(*martian.proxyConn).writeResponse":
+				arg := describe(c.Common().Args[len(c.Common().Args)-1])
+				armed := arg == "(time.Time).Add(time.Now(), $0.Proxy.WriteTimeout)" || arg == "(time.Time).Add(time.Now(), $0.WriteTimeout)"
+				guard := guardedBy(c.Block(), func(g string) bool { return strings.Contains(g, "WriteTimeout > 0)") && !strings.HasPrefix(g, "!") })
+				r.check(armed && guard, key, c.Pos(), "armed with now+WriteTimeout, only when WriteTimeout is positive", "write deadline is "+arg+" (guarded by WriteTimeout>0: "+fmt.Sprint(guard)+")")
+			case n == "(*martian.proxyConn).writeResponse$1":
+				av := c.Common().Args[len(c.Common().Args)-1]
+				arg := describe(av)
+				k, isConst := av.(*ssa.Const)
+				r.check(isConst && k.Value == nil && typeStr(av.Type()) == "time.Time", key, c.Pos(), "cleared with the zero time", "deferred call sets "+arg)
+			default:
+				r.ok(key, c.Pos(), "read-side deadline in readRequest (ordering decided by C15.R2)")
+			}
+		})
+	}
+	for s, want := range allowed {
+		if got[s] != want {
+			r.bad(s.fn+"#"+s.method+"#count", r.method("internal/martian", "proxyConn", "writeResponse").Pos(), fmt.Sprintf("%s calls %s %d times, the reviewed code does so %d times: a deadline is no longer armed or cleared where it was", s.fn, s.method, got[s], want))
+		}
+	}
+	// the write deadline is armed before anything is written and the clearing literal is deferred
+	wr := r.method("internal/martian", "proxyConn", "writeResponse")
+	var set ssa.Instruction
+	var firstWrite ssa.Instruction
+	deferred := false
+	eachInstr(wr, func(ins ssa.Instruction) {
+		if c, ok := ins.(*ssa.Call); ok {
+			switch {
+			case methodName(c.Common()) == "SetWriteDeadline":
+				set = ins
+			case firstWrite == nil && (calleeName(c.Common()) == "(*net/http.Response).Write" || strings.Contains(calleeName(c.Common()), "writeHeaderOnlyResponse") || strings.Contains(calleeName(c.Common()), "writeUpgradeResponse")):
+				firstWrite = ins
+			}
+		}
+		if d, ok := ins.(*ssa.Defer); ok {
+			if mc, ok := d.Common().Value.(*ssa.MakeClosure); ok && strings.HasSuffix(fname(mc.Fn.(*ssa.Function)), "writeResponse$1") {
+				deferred = true
+			}
+		}
+	})
+	if set != nil && firstWrite != nil {
+		r.check(deferred && !reaches(firstWrite, set), "writeResponse#arm-write-clear", set.Pos(), "armed before the first write, cleared by a deferred call", "the write deadline is armed after a write or is not cleared on exit")
 	}
 }
